@@ -18,7 +18,8 @@ from . import worlds
 from .worlds import col_letter
 
 SHEET_NAMES = ['Sheet1', 'Data', 'My Sheet', "It's", 'Q&A', '2020', 'Übung',
-               'S2', 'a.b', 'Sheet 3', 'US$', 'Net$Cost']
+               'S2', 'a.b', 'Sheet 3', 'US$', 'Net$Cost', 'Data 2020', 'Sheet11',
+               'My Sheet 2', 'S']
 TEXTS = ['abc', 'Hello World', 'x', 'héllo wörld', '12', '3.5', 'TRUE',
          'a"b', "it's", '日本', 'a&b<c>', ' padded ', 'line1 line2', 'UPPER',
          '#N/A text', '=A1+1', '=SUM(A1:B2)', '=not a formula', '+1', '-x']
